@@ -11,6 +11,8 @@
 import Proofs.Phase
 import Proofs.Protocol
 import Proofs.SeqInv
+import Proofs.RefsInv
+import Properties.C02
 import Mathlib.Tactic.Ring
 namespace Pulser
 namespace C07
@@ -154,6 +156,83 @@ theorem basis_separation (s : SeqState) (phi : Rat) (qs : List Nat) (b b' : Basi
     · rw [if_pos h2]; rfl
     · rw [if_neg h2]
       exact mapRefs_getRefs_other s b b' qs' _ hb
+
+/-- **Every phase tracker of every reachable sequence is well formed** (times strictly
+increasing, nothing recorded after the qubit's last use): by induction over arbitrary call
+histories, failing calls included.  This is what makes `shift_adds` apply to every reference
+of every reachable state. -/
+theorem trackers_invariant (dev : Device) (nQ : Nat) (s : SeqState) (hr : C02.Reach dev nQ s) :
+    RefsOk s := by
+  obtain ⟨ops, rfl⟩ := hr
+  have key : ∀ (ops : List Op) (s : SeqState), RefsOk s → RefsOk (run s ops) := by
+    intro ops
+    induction ops with
+    | nil => intro s h; exact h
+    | cons op rest ih => intro s h; exact ih _ (stepRaw_refs s op h)
+  exact key ops _ (by intro p hp; simp [SeqState.init] at hp)
+
+theorem find_map_same (refs : List (Basis × List QRef)) (b : Basis) (l : List QRef)
+    (h : (refs.find? (·.1 == b)).isSome = true) :
+    (refs.map fun x => if (x.1 == b) = true then (b, l) else x).find? (·.1 == b) = some (b, l) := by
+  induction refs with
+  | nil => simp at h
+  | cons x rest ih =>
+    simp only [List.map_cons, List.find?_cons] at h ⊢
+    by_cases hx : (x.1 == b) = true
+    · rw [if_pos hx]; simp
+    · rw [if_neg hx]
+      simp only [hx] at h ⊢
+      exact ih h
+
+theorem setRefs_getRefs_same (s : SeqState) (b : Basis) (l l0 : List QRef) (h : s.getRefs b = some l0) :
+    (s.setRefs b l).getRefs b = some l := by
+  unfold SeqState.setRefs SeqState.getRefs at *
+  simp only
+  have : (s.refs.find? (·.1 == b)).isSome = true := by
+    cases hf : s.refs.find? (·.1 == b) with
+    | none => rw [hf] at h; cases h
+    | some p => rfl
+  rw [find_map_same s.refs b l this]; rfl
+
+/-- **A phase shift at the level of the sequence.**  After `phase_shift(phi, targets, basis)`
+returns normally, the current reference of every targeted qubit is its previous reference
+plus `phi` (mod 2π), and the reference of every other qubit of that basis is unchanged. -/
+theorem phase_shift_adds (s : SeqState) (phi : Rat) (qs : List Nat) (b : Basis) (l : List QRef)
+    (hok : RefsOk s) (hne : qs ≠ []) (hl : s.getRefs b = some l)
+    (hsucc : (s.phaseShift phi qs b).err = none) :
+    ∃ l', (s.phaseShift phi qs b).st.getRefs b = some l' ∧ l'.length = l.length ∧
+      ∀ q (hq : q < l.length) (hq' : q < l'.length),
+        (qs.contains q = true → ∃ k : Int, l'[q].lastPhase = l[q].lastPhase + phi - k * twoPi) ∧
+        (qs.contains q = false → l'[q] = l[q]) := by
+  unfold SeqState.phaseShift at hsucc ⊢
+  have h1 : ¬ (s.getRefs b).isNone = true := by rw [hl]; simp
+  rw [if_neg h1] at hsucc ⊢
+  have hqs : (if qs.isEmpty = true then s.allQubits else qs) = qs := by
+    have : qs.isEmpty = false := by cases qs <;> simp_all
+    simp [this]
+  simp only [hqs] at hsucc ⊢
+  by_cases h2 : (qs.any fun x => decide (x ≥ s.nQ)) = true
+  · rw [if_pos h2] at hsucc; simp [fail] at hsucc
+  · rw [if_neg h2]
+    show ∃ l', (s.mapRefs b qs fun x => x.incrementPhase phi).getRefs b = some l' ∧ _
+    unfold SeqState.mapRefs
+    simp only [hl]
+    refine ⟨_, setRefs_getRefs_same s b _ l hl, by simp, ?_⟩
+    intro q hq hq'
+    have hTr : TrOk l[q] := by
+      unfold SeqState.getRefs at hl
+      cases hf : s.refs.find? (·.1 == b) with
+      | none => rw [hf] at hl; cases hl
+      | some p =>
+        rw [hf] at hl; injection hl with hl; subst hl
+        exact hok p (List.mem_of_find?_eq_some hf) _ (List.getElem_mem _)
+    simp only [List.getElem_map, List.getElem_zipIdx, Nat.zero_add]
+    constructor
+    · intro hc
+      rw [if_pos hc]
+      exact (shift_adds l[q] phi hTr).1
+    · intro hc
+      rw [if_neg (by rw [hc]; simp)]
 
 /-! ### Non-vacuity -/
 
